@@ -440,6 +440,13 @@ def serveLookup (H : Hash) (store : Nat → Option Entry) (qid : Nat) (cd : Bool
     | some (e, sc) => if entryMatches e qid cd (some sc) then some e else sharedHit
     | none => sharedHit
 
+/-- the request-deduplication key of `Cache.ServeDNS`: `CacheKey{q, CD}` and, when a
+client scope was derived, `CacheKey{q, CD, Scope: clientScope}` (whose hash folds a /0
+scope into the unscoped key).  Cache-missing requests with the same key share one
+downstream resolution. -/
+def dedupKey (qid : Nat) (cd : Bool) (cs : Option Prefix) : Nat × Bool × Option Prefix :=
+  (qid, cd, normScope cs)
+
 /-- `capTTL` inside `Store.setFromResponseWithKey`. -/
 def capTTL (isScoped : Bool) (cap ttl : Nat) : Nat :=
   if isScoped && decide (cap > 0) && decide (ttl > cap) then cap else ttl
